@@ -623,7 +623,15 @@ def run_execs(ctx, shard, store, part, execs, t_end=None, on_each=None):
         for x in execs:
             if t_end and time.time() > t_end:
                 break
-            r = RUNNERS[part](env, x)
+            try:
+                r = RUNNERS[part](env, x)
+            except (OSError, HarnessError) as e:
+                # squid died or hung in the middle of an execution: attribute it to this execution and stop the unit
+                hp = env.sq.health_problems()
+                if not hp and isinstance(e, OSError):
+                    raise
+                out.append((['squid-failed'], None, 0, hp or ['%s' % e]))
+                break
             hp = env.sq.health_problems()
             out.append(r + (hp,))
             if hp:
